@@ -162,6 +162,7 @@ def check(model, R, tier):
     # ---- GRAD-OWNED
     B = E.BackwardInfo(model)
     E.check_seed_owned(model, R, 'C11', B)
+    E.check_release_predicate(model, R, 'C11', B)      # releasing the buffer of a tensor that is not an intermediate result of THIS graph changes a gradient outside it
     R.rules['C11.GRAD-OWNED'] = R.rules.pop('C11.SEED-OWNED')
     R.floors['C11.GRAD-OWNED'] = R.floors.pop('C11.SEED-OWNED')
     R.counts['C11.GRAD-OWNED'] = R.counts.pop('C11.SEED-OWNED')
